@@ -475,7 +475,13 @@ pub struct EvalState<'a> {
     // Used to check for circular variable references
     // Vec - likely to be few vars, and need stack behaviour
     checked_vars: Vec<String>,
+    // Current nesting depth (parentheses, unary minus, function calls,
+    // variable indirection); bounded to avoid exhausting the stack.
+    depth: usize,
 }
+
+/// Maximum nesting depth of a single expression evaluation
+const MAX_EXPR_DEPTH: usize = 100;
 
 impl<'a> EvalState<'a> {
     fn new(
@@ -488,6 +494,7 @@ impl<'a> EvalState<'a> {
             index: 0,
             context,
             checked_vars: Vec::from(checked_vars),
+            depth: 0,
         }
     }
 
@@ -538,6 +545,7 @@ impl<'a> EvalState<'a> {
                 Ok(ExprValue::List(Vec::new()))
             } else {
                 let mut es = EvalState::new(tokens, self.context, &self.checked_vars);
+                es.depth = self.depth;
                 let e = expr_list(&mut es)?;
                 if es.peek().is_none() {
                     Ok(e)
@@ -742,6 +750,18 @@ fn factor(eval_state: &mut EvalState) -> Result<ExprValue> {
 }
 
 fn primary(eval_state: &mut EvalState) -> Result<ExprValue> {
+    eval_state.depth += 1;
+    if eval_state.depth > MAX_EXPR_DEPTH {
+        return Err(SvgdxError::ParseError(format!(
+            "Expression nesting exceeds {MAX_EXPR_DEPTH}"
+        )));
+    }
+    let result = primary_inner(eval_state);
+    eval_state.depth -= 1;
+    result
+}
+
+fn primary_inner(eval_state: &mut EvalState) -> Result<ExprValue> {
     match eval_state.next() {
         Some(Token::Number(x)) => Ok(ExprValue::Number(x)),
         Some(Token::String(s)) => Ok(ExprValue::String(s)),
